@@ -30,7 +30,7 @@ def gen_cases(ctx, n):
               dict(size="big", n_slices=2, kind="IncrementalCell")] + \
              [dict(n_slices=2, sibling=v) for v in B.SIBLING_VARIANTS] + \
              [dict(n_slices=2, force=("nested",)), dict(n_slices=2, force=("semi", "late")),
-              dict(n_slices=3, kind="Cell", force=("farspan",)), dict(n_slices=2, kind="CumulativeCell", force=("farspan",))]
+              dict(n_slices=3, kind="Cell", force=("farspan",)), dict(n_slices=2, kind="CumulativeCell", force=("farspan",)), dict(n_slices=2, force=("nfc",))]
     i = 0
     while len(cases) < n:
         kw = forced[i] if i < len(forced) else {}
@@ -222,6 +222,19 @@ def run(ctx):
                 if bad is not None and k < 2:
                     ctx.violation("impl-violation", bad[0], {"pair": [pa, pb], **bad[1]}, found_input=True)
 
+        # ---- triangles produced by replace / select / derive_fields, then saved
+        multi = [wt for wt, _, _, _ in records if len({repr(c["meta"]) for c in wt}) >= 2 and 3 <= len(wt) <= 40]
+        n_der = 0
+        for wt in multi[: (5 if ctx.quick else 30)]:
+            for op in ("relabel", "restate"):
+                bad = B.derived_oracle(wt, scratch, rng, op)
+                ctx.hist("derived:" + op)
+                ctx.count(evaluations=len(wt) + 10, traces=1)
+                if bad is not None:
+                    n_der += 1
+                    if n_der <= 2:
+                        ctx.violation("impl-violation", bad[0], bad[1], found_input=True)
+
         # ---- LARGE stream (family Q), Python-side oracles only
         early = next(((wt, b) for wt, b, _, _ in records if wt), None)
         B.run_large_stream(ctx, scratch, "c05", early=early)
@@ -387,6 +400,11 @@ def B_parse(out):
 def replay(ctx, data):
     scratch = B.Scratch(ctx.build)
     try:
+        if data.get("check") == "derived":
+            import random as _r
+            bad = B.derived_oracle(data["wt"], scratch, _r.Random(1), data["derive"])
+            print("replay:", "PROPERTY FAILS: " + bad[0] if bad else "holds")
+            return 1 if bad else 0
         if "large_params" in data:
             return B.replay_large(data, scratch)
         if "boundary" in data:
